@@ -3,7 +3,7 @@
 usage: run_seeds.py <seeds dir> [--props C01,C02,...|target|all] [--only C01/A] [--skip-lean]"""
 import json, os, subprocess, sys, time
 V = os.path.dirname(os.path.dirname(os.path.abspath(__file__)))
-seeds = sys.argv[1]
+seeds = os.path.abspath(sys.argv[1])
 mode = "target"
 only = None
 skip = "--skip-lean" in sys.argv
@@ -21,17 +21,26 @@ os.makedirs(os.path.dirname(wt), exist_ok=True)
 subprocess.check_call(["git", "-C", "/repo", "worktree", "add", "-q", "--detach", wt, "HEAD"])
 results = {}
 try:
-    for pid in sorted(os.listdir(seeds)):
-        for v in sorted(os.listdir(os.path.join(seeds, pid))):
-            name = f"{pid}/{v}"
+    entries = []
+    for d in sorted(os.listdir(seeds)):
+        full = os.path.join(seeds, d)
+        if not os.path.isdir(full):
+            continue
+        if os.path.exists(os.path.join(full, "patch.diff")):        # seeded/<Cxx-A>/patch.diff layout
+            entries.append((d, d.split("-")[0] if d[0] == "C" else d, os.path.join(full, "patch.diff")))
+        else:                                                        # <Cxx>/<A>/patch.diff layout
+            for v in sorted(os.listdir(full)):
+                pth = os.path.join(full, v, "patch.diff")
+                if os.path.exists(pth):
+                    entries.append((f"{d}/{v}", d, pth))
+    for name, pid, patch in entries:
+        if True:
             if only and name != only: continue
-            patch = os.path.join(seeds, pid, v, "patch.diff")
-            if not os.path.exists(patch): continue
             subprocess.check_call(["git", "-C", wt, "checkout", "-q", "--", "."])
             r = subprocess.run(["git", "-C", wt, "apply", patch], capture_output=True, text=True)
             if r.returncode != 0:
                 results[name] = {"apply": "FAILED " + r.stderr[:200]}; print(name, results[name]); continue
-            props = [pid] if mode == "target" else (ALL if mode == "all" else mode.split(","))
+            props = ([pid] if pid in ALL else ALL) if mode == "target" else (ALL if mode == "all" else mode.split(","))
             res = {}
             for p in props:
                 t0 = time.time()
